@@ -138,6 +138,39 @@ def assignRaw (raw : List Val) (us : List Nat) : Rhs → List Val
                   | [v] => scatterConst raw us v
                   | _ => raw
 
+
+/-! ### NumPy casting on assignment -/
+
+/-- round a rational toward zero (C cast `double -> int64`) -/
+def truncRat (r : Rat) : Int := if 0 ≤ r then r.floor else -((-r).floor)
+
+/-- `raw[key] = value` stores `value` cast to the array's dtype: Booleans keep truthiness, float arrays read `True` as
+    `1.0`, integer arrays (`IndexArr`, generic int `Arr`) truncate toward zero.  `none` = NumPy refuses (NaN into an
+    integer array raises `ValueError: cannot convert float NaN to integer`). -/
+def castVal (k : Kind) (v : Val) : Option Val :=
+  match v with
+  | .undef => some .undef
+  | _ =>
+    match k with
+    | .bool => some (.bool v.truthy)
+    | .float => some (match v.toRat? with | some r => .num r | none => .nan)
+    | .index | .generic => (v.toRat?).map (fun r => .num (truncRat r : Int))
+
+/-- does a stored cell have the array's dtype? -/
+def conforms (k : Kind) (v : Val) : Bool :=
+  match k, v with
+  | _, .undef => true
+  | .bool, .bool _ => true
+  | .float, .num _ => true
+  | .float, .nan => true
+  | .index, .num r => r.den == 1
+  | .generic, .num r => r.den == 1
+  | _, _ => false
+
+def castRhs (k : Kind) : Rhs → Option Rhs
+  | .scalar v => (castVal k v).map .scalar
+  | .list vs => (vs.mapM (castVal k)).map .list
+
 /-! ### Active views (`Arr.values`, `true`, `false`, `__len__`) -/
 
 /-- `Arr.values = raw[auids]` -/
@@ -188,6 +221,8 @@ def sliceIndices (len : Nat) (start stop step : Option Int) : Option (List Nat) 
 def sliceUids (au : List Nat) (start stop step : Option Int) : Option (List Nat) :=
   (sliceIndices au.length start stop step).map (fun idx => idx.map (fun i => au.getD i 0))
 
+def isBoolKind (a : Arr) : Bool := a.kind == .bool
+
 /-! ### Keys -/
 
 inductive Variant where
@@ -199,6 +234,7 @@ def codeVariant : Variant := if Gen.intKeyViaActive then .spec else .asis
 
 inductive Key where
   | uids (us : List Nat)
+  | ruids (is : List Int)  -- an `ss.uids` array that may hold negative entries (e.g. `people.parent` with its -1): NumPy wraps them
   | int (i : Int)
   | slice (start stop step : Option Int)
   | boolArr (k : Arr)     -- a `BoolArr`: its true uids
@@ -216,9 +252,26 @@ def valToUid (v : Val) : Option Nat :=
   | .num r => if r.den = 1 ∧ 0 ≤ r.num then some r.num.toNat else none
   | _ => none
 
-/-- `Arr._convert_key` -/
-def convertKey (v : Variant) (au : List Nat) : Key → Except Err Conv
+/-- what NumPy does with one entry of an integer index array over storage of length `len`: a negative entry `-j`
+    addresses cell `len - j`; anything outside `[-len, len)` raises `IndexError` -/
+def wrapOne (len : Nat) (i : Int) : Option Nat :=
+  if i < 0 then (if 0 ≤ i + (len : Int) then some (i + (len : Int)).toNat else none)
+  else (if i < (len : Int) then some i.toNat else none)
+
+def wrapIds (len : Nat) (is : List Int) : Option (List Nat) := is.mapM (wrapOne len)
+
+def valToInt (v : Val) : Option Int :=
+  match v with
+  | .num r => if r.den = 1 then some r.num else none
+  | _ => none
+
+/-- `Arr._convert_key` (`storeLen` = `len(self.raw)`, needed only to resolve negative entries of a uid array) -/
+def convertKey (v : Variant) (au : List Nat) (storeLen : Nat := 0) : Key → Except Err Conv
   | .uids us => .ok (.ids us)
+  | .ruids is =>
+      match wrapIds storeLen is with
+      | some us => .ok (.ids us)
+      | none => .error .index
   | .int i =>
       match v with
       | .asis => .ok (.pos i)                                  -- returned unchanged: indexes storage
@@ -230,10 +283,17 @@ def convertKey (v : Variant) (au : List Nat) : Key → Except Err Conv
       match sliceUids au s e st with
       | some us => .ok (.ids us)
       | none => .error .value
-  | .boolArr k => .ok (.ids (trueUids au k))
+  | .boolArr k =>
+      -- `isinstance(key, (BoolArr, IndexArr))`: any other `Arr` falls through to the ambiguity error
+      -- (with nobody active `len(key) == 0`, so it is taken for an empty key)
+      if isBoolKind k then .ok (.ids (trueUids au k)) else if au.isEmpty then .ok (.ids []) else .error .ambiguous
   | .indexArr k =>
-      match (values au k).mapM valToUid with
-      | some us => .ok (.ids us)
+      -- `IndexArr.uids` = its active values, used as an integer index array (negative entries wrap like any NumPy index)
+      match (values au k).mapM valToInt with
+      | some is =>
+          match wrapIds storeLen is with
+          | some us => .ok (.ids us)
+          | none => .error .index
       | none => .error .index
   | .empty => .ok (.ids [])
   | .unsupported => .error .ambiguous
@@ -251,7 +311,7 @@ inductive Got where
 
 /-- `Arr.__getitem__` -/
 def getItem (v : Variant) (au : List Nat) (a : Arr) (k : Key) : Except Err Got :=
-  match convertKey v au k with
+  match convertKey v au a.raw.length k with
   | .error e => .error e
   | .ok (.ids us) =>
       match v, k with
@@ -262,22 +322,29 @@ def getItem (v : Variant) (au : List Nat) (a : Arr) (k : Key) : Except Err Got :
       | some p => .ok (.one (a.cell p))
       | none => .error .index
 
-/-- `Arr.__setitem__` -/
-def setItem (v : Variant) (au : List Nat) (a : Arr) (k : Key) (rhs : Rhs) : Except Err Arr :=
-  match convertKey v au k with
+/-- `Arr.__setitem__`: the value is cast to the array's dtype (`castRhs`) -/
+def setItem (v : Variant) (au : List Nat) (a : Arr) (k : Key) (rhs0 : Rhs) : Except Err Arr :=
+  match convertKey v au a.raw.length k with
   | .error e => .error e
   | .ok (.ids us) =>
-      -- NumPy broadcasts the value against the index shape first, and checks bounds while writing
-      if !rhsOk us rhs then .error .value
-      else if !inRange a us then .error .index
-      else .ok { a with raw := assignRaw a.raw us rhs }
+      -- NumPy converts/broadcasts the value against the index shape first, and checks bounds while writing
+      match castRhs a.kind rhs0 with
+      | none => .error .value
+      | some rhs =>
+        if !rhsOk us rhs then .error .value
+        else if !inRange a us then .error .index
+        else .ok { a with raw := assignRaw a.raw us rhs }
   | .ok (.pos i) =>
       match pyPos a.raw.length i with
       | none => .error .index
       | some p =>
-          match rhs with
-          | .scalar x => .ok { a with raw := a.raw.set p x }
-          | .list _ => .error .value     -- NumPy: "setting an array element with a sequence"
+          match castRhs a.kind rhs0 with
+          | some (.scalar x) => .ok { a with raw := a.raw.set p x }
+          | _ => .error .value     -- NumPy: "setting an array element with a sequence" / NaN into an int array
+
+/-- `Arr.set_nan(uids)`: `self.raw[uids] = self.nan` (no key conversion) -/
+def setNan (a : Arr) (us : List Nat) : Except Err Arr :=
+  if !inRange a us then .error .index else .ok { a with raw := scatterConst a.raw us a.nan }
 
 /-! ### Derived arrays -/
 
@@ -293,8 +360,6 @@ def cmpScalar (au : List Nat) (a : Arr) (op : Cmp) (x : Val) : Arr :=
 def cmpArr (au : List Nat) (a b : Arr) (op : Cmp) : Arr :=
   asnew au a (List.zipWith (cmpVal op) (values au a) (values au b)) .bool
 
-def isBoolKind (a : Arr) : Bool := a.kind == .bool
-
 /-- `&`, `|`, `^` against an array: only for Boolean arrays -/
 def logicArr (au : List Nat) (a b : Arr) (op : Logic) : Except Err Arr :=
   if isBoolKind a then .ok (asnew au a (List.zipWith (logicVal op) (values au a) (values au b)) a.kind)
@@ -307,6 +372,48 @@ def logicScalar (au : List Nat) (a : Arr) (op : Logic) (x : Val) : Except Err Ar
 /-- `~arr` -/
 def invert (au : List Nat) (a : Arr) : Except Err Arr :=
   if isBoolKind a then .ok (asnew au a ((values au a).map notVal) a.kind) else .error .boolOp
+
+
+/-! ### `isnan` / `notnan` / `notnanvals` / `split` -/
+
+def isNanCell (v : Val) : Val := if v.isUndef then .undef else .bool (v == .nan)
+
+/-- `Arr.isnan`: `FloatArr` uses `np.isnan`, `BoolArr` is never NaN, everything else compares with its `nan` value -/
+def isnan (au : List Nat) (a : Arr) : Arr :=
+  match a.kind with
+  | .float => asnew au a ((values au a).map isNanCell) .bool
+  | .bool => asnew au a ((values au a).map (fun _ => .bool false)) .bool
+  | _ => cmpScalar au a .eq a.nan
+
+def notnan (au : List Nat) (a : Arr) : Arr :=
+  match a.kind with
+  | .float => asnew au a ((values au a).map (fun v => notVal (isNanCell v))) .bool
+  | .bool => asnew au a ((values au a).map (fun _ => .bool true)) .bool
+  | _ => cmpScalar au a .ne a.nan
+
+/-- `FloatArr.notnanvals`: the non-NaN values of the ACTIVE agents, in active order -/
+def notnanvals (au : List Nat) (a : Arr) : List Val := (values au a).filter (fun v => !(v == .nan))
+
+/-- `BoolArr.split()` -/
+def split (au : List Nat) (a : Arr) : List Nat × List Nat := (trueUids au a, falseUids au a)
+
+/-! ### Arithmetic through `__array_ufunc__` (`arr + x`, `arr * arr2`, `-arr`): computed on `values`, written back by `asnew` -/
+
+inductive Arith where
+  | add | sub | mul
+  deriving DecidableEq, Repr
+
+def arithVal (op : Arith) (a b : Val) : Val :=
+  if a.isUndef || b.isUndef then .undef else
+  match a.toRat?, b.toRat? with
+  | some x, some y => .num (match op with | .add => x + y | .sub => x - y | .mul => x * y)
+  | _, _ => .nan
+
+def arithScalar (au : List Nat) (a : Arr) (op : Arith) (x : Val) : Arr :=
+  asnew au a ((values au a).map (fun v => arithVal op v x)) a.kind
+
+def arithArr (au : List Nat) (a b : Arr) (op : Arith) : Arr :=
+  asnew au a (List.zipWith (arithVal op) (values au a) (values au b)) a.kind
 
 /-! ### Reductions over the active view -/
 
@@ -428,15 +535,48 @@ def updMany (m : Nat → Val) : List Nat → List Val → (Nat → Val)
   | u :: us, v :: vs => updMany (fun x => if x = u then v else m x) us vs
   | _, _ => m
 
-def RefMap.step (dflt : List Nat → List Val) (r : RefMap) : HOp → RefMap
+def RefMap.step (kind : Kind) (dflt : List Nat → List Val) (r : RefMap) : HOp → RefMap
   | .grow k => { active := r.active ++ newIds r.n k, n := r.n + k, m := updMany r.m (newIds r.n k) (dflt (newIds r.n k)) }
   | .remove dead => { r with active := r.active.filter (fun u => !dead.contains u) }
-  | .assign us rhs => { r with m := updMany r.m us (rhsVals us.length rhs) }
+  | .assign us rhs =>
+      match castRhs kind rhs with
+      | some rhs' => { r with m := updMany r.m us (rhsVals us.length rhs') }   -- the value as the dtype stores it
+      | none => r
 
-def RefMap.run (dflt : List Nat → List Val) (r : RefMap) (ops : List HOp) : RefMap := ops.foldl (RefMap.step dflt) r
+def RefMap.run (kind : Kind) (dflt : List Nat → List Val) (r : RefMap) (ops : List HOp) : RefMap := ops.foldl (RefMap.step kind dflt) r
 
 /-- what the reference answers for identifier `u`: its value if active, nothing otherwise -/
 def RefMap.lookup (r : RefMap) (u : Nat) : Option Val := if u ∈ r.active then some (r.m u) else none
+
+/-! ### Specification-level definitions used by the theorems (Props/C11.lean) -/
+
+/-- bookkeeping of an array over `n` identifiers: `len_used = n ≤ len_tot = len(raw)` -/
+structure WF (n : Nat) (a : Arr) : Prop where
+  used : a.lenUsed = n
+  tot : a.lenTot = a.raw.length
+  le : n ≤ a.raw.length
+
+/-- the simulation relation between the storage machine and the reference map -/
+structure Sim (kind : Kind) (dflt : List Nat → List Val) (h : Hist) (r : RefMap) : Prop where
+  kind : h.arr.kind = kind
+  au : h.au = r.active
+  n : h.n = r.n
+  wf : WF h.n h.arr
+  cells : ∀ u, u < h.n → h.arr.cell u = r.m u
+  dflt : ∀ us, defaultVals h.arr us = dflt us
+  active : ∀ u ∈ h.au, u < h.n
+  nodup : h.au.Nodup
+
+/-- an operation the code accepts, phrased on the reference only: the default yields one value per new agent;
+    assignments name created identifiers and have a castable, broadcastable right-hand side -/
+def HOp.valid (kind : Kind) (dflt : List Nat → List Val) (r : RefMap) : HOp → Prop
+  | .grow k => (dflt (newIds r.n k)).length = k
+  | .remove _ => True
+  | .assign us rhs => (∃ rhs', castRhs kind rhs = some rhs' ∧ rhsOk us rhs' = true) ∧ ∀ u ∈ us, u < r.n
+
+def validRun (kind : Kind) (dflt : List Nat → List Val) : RefMap → List HOp → Prop
+  | _, [] => True
+  | r, op :: ops => HOp.valid kind dflt r op ∧ validRun kind dflt (r.step kind dflt op) ops
 
 /-! ### `ss.uids` set algebra -/
 
